@@ -334,7 +334,10 @@ RetEvalWith(r, dexp, newseed) ==
          [] op = "Load" ->
             ConstructorConds(r, LoadExpected) \o
             LedgerConds(r, IF r.st = StOK THEN r.blk ELSE 0) \o
-            << Cond("input-not-modified", {"C14"}, r.intact) >>
+            \* (C12: an encrypted seed "can be ... stored and loaded like any seed": bit 14 of the field at bytes 8-9)
+            << Cond("stored-encrypted-seed-loads", {"C12", "C06", "C13"},
+                    (LoadExpected = StOK /\ (a.buf[10] \div 64) % 2 = 1) => r.st = StOK),
+               Cond("input-not-modified", {"C14"}, r.intact) >>
          [] op = "Free" ->
             LedgerConds(r, 0) \o
             << Cond("free-null-does-nothing", {"C15", "C13"}, a.h = 0 => OnlyStackWipes),
